@@ -152,6 +152,11 @@ def EnableSpec (p : Proj) (names : List String) (q : Proj) : Prop :=
 instance (p : Proj) (names : List String) (q : Proj) : Decidable (EnableSpec p names q) := by
   unfold EnableSpec; exact inferInstance
 
+/-- the arguments of `WithServicesDisabled` up to and including the first occurrence of `x` -/
+def upTo (x : String) : List String → List String
+  | [] => []
+  | n :: ns => if n = x then [n] else n :: upTo x ns
+
 /-- `WithServicesDisabled names` -/
 def DisableSpec (p : Proj) (names : List String) (q : Proj) : Prop :=
   SameSet (keys q.services) ((keys p.services).filter (fun k => k ∉ names)) ∧
@@ -164,6 +169,23 @@ def DisableSpec (p : Proj) (names : List String) (q : Proj) : Prop :=
   q.profiles = p.profiles
 instance (p : Proj) (names : List String) (q : Proj) : Decidable (DisableSpec p names q) := by
   unfold DisableSpec; exact inferInstance
+
+/-- exact content of the services moved by `WithServicesDisabled names`: a moved service has lost its dependencies
+on the names listed up to and including itself (the names are processed in argument order; this is the only way
+the order of the arguments matters) -/
+def DisableMovedSpec (p : Proj) (names : List String) (q : Proj) : Prop :=
+  ∀ kv ∈ q.disabled, kv.1 ∈ keys p.services → sat (lookup kv.1 p.services) fun s =>
+    kv.2 = { s with deps := s.deps.filter (fun d => d.1 ∉ upTo kv.1 names) }
+instance (p : Proj) (names : List String) (q : Proj) : Decidable (DisableMovedSpec p names q) := by
+  unfold DisableMovedSpec; exact inferInstance
+
+/-- exact content of the services disabled by `WithSelectedServices` (after the `fix:` commit): a non-selected
+service has lost its dependencies on the non-selected services whose name is not greater than its own -/
+def SelectMovedSpec (p : Proj) (S : List String) (q : Proj) : Prop :=
+  ∀ kv ∈ q.disabled, kv.1 ∈ keys p.services → sat (lookup kv.1 p.services) fun s =>
+    kv.2 = { s with deps := s.deps.filter (fun d => ¬(d.1 ∈ keys p.services ∧ d.1 ∉ S ∧ d.1 ≤ kv.1)) }
+instance (p : Proj) (S : List String) (q : Proj) : Decidable (SelectMovedSpec p S q) := by
+  unfold SelectMovedSpec; exact inferInstance
 
 /-- the outcome the property prescribes for `WithSelectedServices names pol`:
 `none` = "no such service", `some S` = the set of services that stay enabled -/
